@@ -9,6 +9,12 @@ Add Ring RrD5 : (rth F).
 Notation vec := (list F).
 Local Open Scope R_scope.
 
+Lemma nth_put' n i a v (y : vec) : length y = n -> (a <= n)%nat ->
+  nth i (put F a v y) 0 = if (a <=? i) && (i <? a + length v) then nth (i - a) v 0 else nth i y 0.
+Proof. intros <- H. apply nth_put; auto. Qed.
+Ltac nths' n := repeat (first [ rewrite (nth_vadd' _ n) by lf | rewrite nth_vadd by len | rewrite nth_vsub by len
+  | rewrite (nth_put' n) by lf | rewrite nth_embed | rewrite nth_zeros | rewrite nth_vscale | rewrite nth_vneg | rewrite nth_slice ]).
+
 (* ---------------- model = documented stencil, row by row ---------------- *)
 Lemma fd_forward_spec o e s x i : (i < length x)%nat ->
   nth i (fd_mv_forward F s x) 0 = fd_spec F Forward o e s (length x) i x.
@@ -22,12 +28,12 @@ Lemma fd_c3_spec (e : bool) s x i : (i < length x)%nat -> ((if e then 2 else 0) 
   nth i (fd_mv_c3 F e s x) 0 = fd_spec F Centered false e s (length x) i x.
 Proof. intros Hi Hn. unfold fd_mv_c3, fd_spec. unf. setn1 x n Hx.
   destruct n as [|[|m]]; [destruct e; [lia|smallspec x i] .. |].
-  rewrite put_zeros by len. destruct e; nths (S (S m)); lens; split_ifs; fin. Qed.
+  rewrite put_zeros by len. destruct e; nths' (S (S m)); lens; split_ifs; fin. Qed.
 Lemma fd_c5_spec (e : bool) s x i : (i < length x)%nat -> ((if e then 4 else 0) <= length x)%nat ->
   nth i (fd_mv_c5 F e s x) 0 = fd_spec F Centered true e s (length x) i x.
 Proof. intros Hi Hn. unfold fd_mv_c5, fd_spec. unf. setn1 x n Hx.
   destruct n as [|[|[|[|m]]]]; [destruct e; [lia|smallspec x i] .. |].
-  rewrite put_zeros by len. destruct e; nths (S (S (S (S m)))); lens; split_ifs; fin. Qed.
+  rewrite put_zeros by len. destruct e; nths' (S (S (S (S m)))); lens; split_ifs; fin. Qed.
 Theorem fd_meets_spec k o e s x i : (i < length x)%nat -> (fd_minsize k o e <= length x)%nat ->
   nth i (fd_fwd F k o e s x) 0 = fd_spec F k o e s (length x) i x.
 Proof. destruct k; cbn [fd_fwd fd_minsize]; intros.
@@ -49,7 +55,7 @@ Lemma sd_centered_spec (e : bool) s x i : (i < length x)%nat -> ((if e then 3 el
   nth i (sd_mv_centered F e s x) 0 = sd_spec F Centered e s (length x) i x.
 Proof. intros Hi Hn. unfold sd_mv_centered, sd_core, sd_spec. unf. setn1 x n Hx.
   destruct n as [|[|[|m]]]; [destruct e; [lia|smallspec x i] .. |].
-  rewrite put_zeros by len. destruct e; nths (S (S (S m))); lens; split_ifs; fin. Qed.
+  rewrite put_zeros by len. destruct e; nths' (S (S (S m))); lens; split_ifs; fin. Qed.
 Theorem sd_meets_spec k e s x i : (i < length x)%nat -> (sd_minsize k e <= length x)%nat ->
   nth i (sd_fwd F k e s x) 0 = sd_spec F k e s (length x) i x.
 Proof. destruct k; cbn [sd_fwd sd_minsize]; intros.
